@@ -9,3 +9,6 @@ func VerifRoutines() (uint64, uint64, uint64) {
 func VerifTotals() (urls, seeds uint64) {
 	return globalStats.URLsCrawled.getTotal(), globalStats.SeedsFinished.getTotal()
 }
+
+// VerifCodeTotals returns the per-status-code totals (no exported getter exists).
+func VerifCodeTotals() map[string]uint64 { return globalStats.HTTPReturnCodes.getAllTotal() }
